@@ -242,7 +242,7 @@ class Validator:
                 n = format_map[n_key]
                 try:
                     n = int(n)
-                except TypeError:
+                except (TypeError, ValueError):
                     pass
             except KeyError:
                 n = n_key
